@@ -12,7 +12,7 @@ def main(tier: str, seed: int) -> int:
             "non-trivial = minmax_chains changed the program and the outcome varies over instances")
     bounds = {"qdefs": len(fam.QDEFS), "agg_rules": len(fam.agg_rules(tier)), "users": len(fam.USERS),
               "universe": fam.universe("choice", tier)}
-    return generic.family_main(PROP, tier, seed, fam.jobs(tier), rule, bounds)
+    return generic.family_main(PROP, tier, seed, generic.with_variants(fam.jobs(tier), tier), rule, dict(bounds, variants=True))
 
 
 def replay(path: str) -> int:
